@@ -73,6 +73,9 @@ def run_plan(prop, tier, seed, t0, mcs, traces, level, assumptions, rule, tagger
     for tr in traces:
         prefix = os.path.join(WORK, prop, "tr_" + tr["name"])
         summ = record(tr["engine"], prefix, tr.get("shards", 2 * NCPU), ["--seed", seed] + tr["args"], tr.get("rec_timeout", 3000))
+        # registry for bin/selftest.py (which trace spec reads which recorded file)
+        with open(os.path.join(WORK, prop, "tr_" + tr["name"] + ".spec.json"), "w") as f:
+            json.dump({"module": tr["module"], "cfg": tr["cfg"], "engine": tr["engine"], "prefix": prefix}, f)
         res = validate(prop, tr["module"], tr["cfg"], prefix, tr.get("timeout", 3000))
         groups += summ["groups"]
         events += summ["lines"]
@@ -172,12 +175,19 @@ def plan_C01(prop, tier, seed, t0):
                                               "--stride", 16 if q else 1], **T),
         dict(name="rand", engine="simp", args=["--random", 300 if q else 5000, "--rand", "maxsp=6,maxb=3"], **T),
         dict(name="randgl", engine="simp", args=["--random", 300 if q else 5000, "--rand", "kind=gl,maxsp=6,maxb=3,gadgets=3"], **T),
+        # hook H3: every rule application of 11 simplifiers, each validated as a step of spec/Simp.tla from the previous recorded diagram
+        dict(name="steps_fam", engine="simp", args=["--steps", "--fam", "k=2,tys=ZX,phs=0124,ets=NH,nb=2,bb=1", "--stride", 80 if q else 8], **T),
+        dict(name="steps_rand", engine="simp", args=["--steps", "--random", 120 if q else 2500, "--rand", "kind=gl,maxsp=6,maxb=3,gadgets=3"], **T),
     ]
     return run_plan(prop, tier, seed, t0, mcs, traces, "model_checking", COMMON_ASSUME,
                     "MC: every firing order of the full_simp rule set (superset of every strategy) from every diagram of the family, "
                     "Sound/NoPanic/StaysWF in every state, termination under weak fairness; TRACE: one execution = one diagram on which "
                     "all 15 pub simplifiers ran in both backends under a 20 s watchdog; non-trivial = runs that changed the diagram, "
-                    "each decided by Den(post) = Den(pre) in TLC")
+                    "each decided by Den(post) = Den(pre) in TLC; STEPS (hook H3): every single rule application / pack / x_to_z / gadget batch "
+                    "step made by 11 simplifiers is logged with the diagram after it and checked to be a step of spec/Simp.tla from the "
+                    "previously logged diagram (matcher true, Apply of that rule with those arguments incl. exact scalar, rule in the strategy's "
+                    "set, returned diagram = last step): the real schedule is a path of the transition relation MC_Simp explores (L1)",
+                    extra_cov_fn=lambda st, groups: {"rule_applications_validated": st.get("steps", 0), "rule_applications_conforming": st.get("steps_ok", 0)})
 
 
 def plan_C10(prop, tier, seed, t0):
@@ -196,6 +206,7 @@ def plan_C10(prop, tier, seed, t0):
         dict(name="rules_rand_zx", engine="rules", args=["--random", 150 if q else 3000, "--rand", "maxsp=4,maxb=2,vars=012,pvar=0.35"], **R),
         dict(name="simp_rand", engine="simp", args=["--random", 250 if q else 4000, "--rand", "kind=gl,maxsp=6,maxb=2,phs=01246,vars=012,pvar=0.3,gadgets=3"], **S),
         dict(name="simp_rand_zx", engine="simp", args=["--random", 150 if q else 3000, "--rand", "maxsp=5,maxb=2,vars=012,pvar=0.3"], **S),
+        dict(name="simp_steps", engine="simp", args=["--steps", "--random", 60 if q else 1200, "--rand", "kind=gl,maxsp=6,maxb=2,phs=01246,vars=012,pvar=0.3,gadgets=3"], **S),
         dict(name="measure", engine="tograph", args=["--enum", "2,2,small", "--random", 150 if q else 2500, "--alphabet", "all", "--maxq", 3, "--maxlen", 7,
                                                      "--stride", 2 if q else 1], **C),
     ]
@@ -308,6 +319,11 @@ def plan_C03(prop, tier, seed, t0):
         # deep Clifford+T circuits on two qubits: frontiers that need Gaussian elimination with several neighbours
         dict(name="deep2", engine="extract", args=["--random", 150 if q else 3000, "--alphabet", "ct", "--minq", 2, "--maxq", 2, "--minlen", 12, "--maxlen", 40] + cli, **T),
         dict(name="enum2", engine="extract", args=["--enum", "2,6,cth", "--stride", 24 if q else 2], **T),
+        # hook H4: every phase of Extractor::extract with diagram, circuit and frontier, validated as behaviours of spec/Extract.tla
+        dict(name="steps", engine="xsteps", module="Trace_XSteps.tla", cfg="Trace_XSteps.cfg",
+             args=["--random", 80 if q else 400, "--alphabet", "ct", "--minq", 2, "--maxq", 3, "--minlen", 6, "--maxlen", 30] + ([] if q else ["--thorough"])),
+        dict(name="steps_enum", engine="xsteps", module="Trace_XSteps.tla", cfg="Trace_XSteps.cfg",
+             args=["--enum", "2,4,cth", "--stride", 9 if q else 4]),
     ]
     return run_plan(prop, tier, seed, t0, mcs, traces, "model_checking", COMMON_ASSUME,
                     "MC: the extraction state machine of spec/Extract.tla (prepare frontier / gadget pivot / extract / Gauss-Jordan row operations "
@@ -316,8 +332,13 @@ def plan_C03(prop, tier, seed, t0):
                     "never the error state, identity wires at the end; TRACE: one program = one source circuit pushed through to_graph -> {flow, clifford, full}_simp -> Extractor in modes "
                     "{single-solution-set, simple-Gauss, up-to-permutation} (+ flow/no-Gauss), both backends, and through the built `quizx opt` "
                     "binary (4 method flags, stdout and -o); every output circuit is validated by TLC: basic gates only, same qubits, "
-                    "ProjEq(CircSem(out), CircSem(in)) with a non-zero factor (for some input permutation in up-to-permutation mode)",
-                    extra_cov_fn=lambda st, groups: {"programs": groups, "disagreements_checked": st.get("extractions", 0) + st.get("cli", 0)})
+                    "ProjEq(CircSem(out), CircSem(in)) with a non-zero factor (for some input permutation in up-to-permutation mode); "
+                    "STEPS (hook H4): every phase of the real extraction loop (prepare / gadget / extract / gauss / perm) is logged with the remaining "
+                    "diagram, the circuit so far and the frontier, and TLC checks that each is a transition of spec/Extract.tla from the previous "
+                    "recorded state (PrepareSet, ApplyGenPivot on an allowed pair, ExtractAll, row operations = new CNOTs and an element of SlnChoices, "
+                    "permutation) and that ExtInv holds in the recorded states (diagrams up to 6 spiders); deviations are L1 drift, the result is judged as above",
+                    extra_cov_fn=lambda st, groups: {"programs": groups, "disagreements_checked": st.get("extractions", 0) + st.get("cli", 0),
+                                                     "extraction_phases_validated": st.get("steps", 0), "gauss_steps": st.get("gauss", 0), "gadget_pivots": st.get("gadget", 0)})
 
 
 def plan_C09(prop, tier, seed, t0):
